@@ -250,7 +250,7 @@ def explore(mod, tier, seed, nproc=None, cap_s=None, log=print):
                 for ch in _chunks(st.cases, st.chunk):
                     n += len(ch)
                     for c in ch:
-                        c.setdefault('_checker', st.checker)
+                        c['_checker'] = st.checker
                     if len(samples) < 6 and (n <= len(ch) or len(samples) < 3):
                         samples.append({'stratum': st.name, 'checker': st.checker,
                                         'case': ch[len(ch) // 2]})
